@@ -952,6 +952,8 @@ class Interp:
         elif isinstance(t, (ast.Tuple, ast.List)):
             items = self.models.concrete_iter(self, v)
             if items is None:
+                if numkind(v) is not None or v is None:
+                    raise PyExc('TypeError', 'cannot unpack non-iterable object')
                 raise Unsupported('unpacking a symbolic sequence')
             if len(items) != len(t.elts):
                 raise PyExc('ValueError', 'unpack')
